@@ -58,6 +58,24 @@ type fwOp struct {
 	C     string `json:"c"`
 	Pause int    `json:"pause"` // microseconds to sleep after the op (0: none; -1: wait until the view has converged)
 	Mid   bool   `json:"mid"`   // perform the op inside the watch loop, between its read and its re-arming (hook fw.read)
+	InDec bool   `json:"indec"` // perform the op at the moment the watcher hands the opened file to the decoder
+}
+
+var fwPendingDec atomic.Pointer[func()]
+
+// fwDec wraps the decoder of the watched source: an operation can be made to land after the file was opened (and possibly
+// looked at) but before its content is decoded
+type fwDec struct{ inner dials.Decoder }
+
+func (d *fwDec) Decode(r io.Reader, t *dials.Type) (reflect.Value, error) {
+	if f := fwPendingDec.Swap(nil); f != nil {
+		(*f)()
+		select {
+		case fwFired <- struct{}{}:
+		default:
+		}
+	}
+	return d.inner.Decode(r, t)
 }
 
 var fwPending atomic.Pointer[func()]
@@ -154,7 +172,7 @@ func runFwCase(c fwCase, base string) (mis []fwMis, info map[string]any) {
 	fwLogMu.Unlock()
 	fd0 := inotifyFDs()
 	ctx, cancel := context.WithCancel(context.Background())
-	ws, err := file.NewWatchingSource(path, &djson.Decoder{})
+	ws, err := file.NewWatchingSource(path, &fwDec{inner: &djson.Decoder{}})
 	if err != nil {
 		panic(err)
 	}
@@ -290,7 +308,7 @@ func runFwCase(c fwCase, base string) (mis []fwMis, info map[string]any) {
 			skip = false
 			continue
 		}
-		nextMid := i+1 < len(c.Ops) && c.Ops[i+1].Mid && !op.Mid
+		nextMid := i+1 < len(c.Ops) && (c.Ops[i+1].Mid || c.Ops[i+1].InDec) && !op.Mid && !op.InDec
 		if nextMid {
 			// the next operation is to land between the watcher's read (caused by this one) and its re-arming
 			select {
@@ -298,7 +316,11 @@ func runFwCase(c fwCase, base string) (mis []fwMis, info map[string]any) {
 			default:
 			}
 			nd := mkDo(c.Ops[i+1])
-			fwPending.Store(&nd)
+			if c.Ops[i+1].InDec {
+				fwPendingDec.Store(&nd)
+			} else {
+				fwPending.Store(&nd)
+			}
 		}
 		identOff = nextMid
 		mkDo(op)()
@@ -308,7 +330,11 @@ func runFwCase(c fwCase, base string) (mis []fwMis, info map[string]any) {
 			case <-fwFired:
 				forced++
 			case <-time.After(150 * time.Millisecond):
-				if f := fwPending.Swap(nil); f != nil {
+				f := fwPending.Swap(nil)
+				if f == nil {
+					f = fwPendingDec.Swap(nil)
+				}
+				if f != nil {
 					(*f)() // the watcher did not wake up: perform it here
 				} else {
 					select {
@@ -365,7 +391,7 @@ func runFwCase(c fwCase, base string) (mis []fwMis, info map[string]any) {
 		info["converge_us"] = time.Since(t0).Microseconds()
 	} else {
 		// invalid / malformed / absent final content: the view stays at a good config the file once held
-		dl := time.Now().Add(300 * time.Millisecond)
+		dl := time.Now().Add(15 * time.Second) // (used up only when the error never arrives; 300 ms were not enough at load 100)
 		for time.Now().Before(dl) && !(curContent == "" || nerr.Load() > 0) {
 			time.Sleep(200 * time.Microsecond)
 		}
